@@ -129,6 +129,9 @@ func (r *run) tcpOp(chunks [][]byte) {
 	op := "tcp " + strings.Join(hexes, "|")
 	out, tail := collect(sock.Inbound(), 2*time.Second)
 	r.emit(op, strings.Join(append(out, tail), " ; "))
+	if want, wtail := expectTCP(all); tail != "timeout" && (strings.Join(want, " ; ") != strings.Join(out, " ; ") || wtail != tail) {
+		r.violation("tcp-frames-differ", op, fmt.Sprintf("Inbound yielded %d services then %s; the stream holds %d well-formed frames then %s", len(out), tail, len(want), wtail))
+	}
 	if tail == "timeout" {
 		r.violation("receiver-stalled", op, "neither the sentinel frame nor the closing of Inbound within 2 s")
 	}
@@ -143,6 +146,31 @@ func (r *run) tcpOp(chunks [][]byte) {
 	case <-time.After(2 * time.Second):
 		r.violation("inbound-not-closed-after-close", op, "")
 	}
+}
+
+// expectTCP: the well-formed frames of a byte stream in order, read off the announced lengths, by
+// the property's statement (a frame the decoder rejects is not surfaced; an unacceptable header
+// ends the stream)
+func expectTCP(chunks [][]byte) (out []string, tail string) {
+	var stream []byte
+	for _, c := range chunks {
+		stream = append(stream, c...)
+	}
+	for len(stream) >= 6 {
+		total := int(stream[4])<<8 | int(stream[5])
+		if stream[0] != 6 || stream[1] != 16 || total < 6 {
+			return out, "closed"
+		}
+		if len(stream) < total {
+			break
+		}
+		var svc knxnet.Service
+		if _, err := knxnet.Unpack(stream[:total], &svc); err == nil {
+			out = append(out, ktext.Join(ktext.Service(svc)))
+		}
+		stream = stream[total:]
+	}
+	return out, "open"
 }
 
 // cut splits a stream at the given sorted positions.
@@ -259,6 +287,16 @@ func (r *run) udpOp(dgrams [][]byte) {
 	}
 	op := "udp " + strings.Join(hexes, "|")
 	r.emit(op, strings.Join(append(out, tail), " ; "))
+	var want []string
+	for _, d := range dgrams {
+		var svc knxnet.Service
+		if _, err := knxnet.Unpack(append([]byte(nil), d...), &svc); err == nil {
+			want = append(want, ktext.Join(ktext.Service(svc)))
+		}
+	}
+	if tail == "end" && strings.Join(want, " ; ") != strings.Join(out, " ; ") {
+		r.violation("udp-frames-differ", op, fmt.Sprintf("Inbound yielded %d services, %d of the datagrams are well-formed frames", len(out), len(want)))
+	}
 	if tail != "end" {
 		r.violation("udp-receiver-stopped", op, "after a datagram the sentinel frame no longer arrived: "+tail)
 	}
